@@ -70,6 +70,12 @@ fn main() {
             }
             std::process::exit(sup::judge_file(&args[2], &args[3], &args[4]));
         }
+        "shrink" => {
+            if args.len() < 4 {
+                usage();
+            }
+            std::process::exit(sup::shrink_file(&args[2], &args[3]));
+        }
         "sig" => {
             if args.len() < 3 {
                 usage();
